@@ -5,6 +5,7 @@ package main
 
 import (
 	"fmt"
+	"time"
 
 	"github.com/6tail/lunar-go/LunarUtil"
 	"github.com/6tail/lunar-go/calendar"
@@ -43,6 +44,11 @@ func init() {
 		Run:           runC05,
 		MinNontrivial: 100,
 	})
+}
+
+func pillarSig(l *calendar.Lunar) string {
+	return l.GetYearInGanZhi() + l.GetYearInGanZhiByLiChun() + l.GetYearInGanZhiExact() + " " + l.GetMonthInGanZhi() + l.GetMonthInGanZhiExact() + " " +
+		l.GetDayInGanZhi() + l.GetDayInGanZhiExact() + l.GetDayInGanZhiExact2() + " " + l.GetTimeInGanZhi()
 }
 
 func inJiaZi(s string) bool { return LunarUtil.GetJiaZiIndex(s) >= 0 }
@@ -182,6 +188,24 @@ func runC05(w *W) {
 			}
 			if g, z := refMonth(cntEx); l.GetMonthGanIndexExact() != g || l.GetMonthZhiIndexExact() != z {
 				bad("monthExact", fmt.Sprintf("%d/%d", l.GetMonthGanIndexExact(), l.GetMonthZhiIndexExact()), fmt.Sprintf("%d/%d", g, z))
+			}
+			// --- the same moment given as a time.Time with a sub-second part lies in the same second, slot, day and
+			// term interval: its pillars are those of the integer route (moments one second before a change-over)
+			if t.s == 59 || len(times) > len(tbTimes) {
+				ns := 500000000
+				if d.J%2 == 1 {
+					ns = 999999999
+				}
+				tt := time.Date(d.Y, time.Month(d.M), d.D, t.h, t.m, t.s, ns, time.UTC)
+				if tt.Year() == d.Y && int(tt.Month()) == d.M && tt.Day() == d.D {
+					var lt *calendar.Lunar
+					if msg, p := try(func() { lt = calendar.NewLunarFromDate(tt) }); p {
+						bad("NewLunarFromDate:panic", msg, "a lunar date")
+					} else if a, b := pillarSig(lt), pillarSig(l); a != b {
+						bad(fmt.Sprintf("NewLunarFromDate(+%dns)", ns), a, b)
+					}
+					w.R.Evals++
+				}
 			}
 			// --- string forms are valid pairs and agree with the index forms
 			strs := []struct {
